@@ -251,13 +251,22 @@ Variable pf : toks -> Parser.res (token * text * text * toks).
 Notation parse_tops := (parse_tops autovars switches ee pf).
 Notation parse_program := (parse_program autovars switches ee pf).
 
+(* the lists the name check compares: in a real compilation (ee = true) all texts and all top-level statements; in lint mode
+   (ee = false: no switches and no fonts, so the hoisted names are not those of the real compilation) the author's own *)
+Notation chk_texts := (checked_texts ee).
+Notation chk_tops := (checked_tops ee).
+Lemma chk_texts_true st : ee = true -> chk_texts st = all_texts st. Proof. intros ->. reflexivity. Qed.
+Lemma chk_tops_true st : ee = true -> chk_tops st = all_tops st. Proof. intros ->. reflexivity. Qed.
+Lemma chk_texts_lint st : ee = false -> chk_texts st = ptexts st. Proof. intros ->. reflexivity. Qed.
+Lemma chk_tops_lint st : ee = false -> chk_tops st = ptops st. Proof. intros ->. reflexivity. Qed.
+
 Lemma parse_program_eq ts :
   parse_program ts =
   match parse_tops (5 * List.length ts + 4) pst0 ts with
   | Parser.Ok st =>
-      match dup_text [] (all_texts st) with
+      match dup_text [] (chk_texts st) with
       | Some x => err_tok (xtok x) "duplicate text label"
-      | None => match dup_mov [] (all_tops st) with
+      | None => match dup_mov [] (chk_tops st) with
                 | Some tk => err_tok tk "duplicate movement label"
                 | None => Parser.Ok {| tops := all_tops st; texts := all_texts st |}
                 end
@@ -266,36 +275,37 @@ Lemma parse_program_eq ts :
   end.
 Proof. reflexivity. Qed.
 
-(* THEOREM 1 (every accepted program): text names pairwise distinct, movement names pairwise distinct *)
-Theorem accepted_names_distinct ts p :
+(* THEOREM 1 (every program accepted by a real compilation): text names pairwise distinct, movement names pairwise distinct *)
+Theorem accepted_names_distinct ts p : ee = true ->
   parse_program ts = Parser.Ok p -> NoDup (map xname (texts p)) /\ NoDup (mov_names (tops p)).
 Proof.
-  rewrite parse_program_eq. destruct (parse_tops _ pst0 ts) as [st| | |]; try discriminate.
+  intros EE. rewrite parse_program_eq. destruct (parse_tops _ pst0 ts) as [st| | |]; try discriminate.
+  rewrite (chk_texts_true st EE), (chk_tops_true st EE).
   destruct (dup_text [] (all_texts st)) eqn:E1; [discriminate|]. destruct (dup_mov [] (all_tops st)) eqn:E2; [discriminate|].
   intros H. inversion H; subst. cbn [texts tops]. split; [now apply dup_text_none_nodup|now apply dup_mov_none_nodup].
 Qed.
 
-(* THEOREM 2 (the complete case analysis of the name check, for every token stream on which the top-level loop succeeds):
-   exactly one of
-   (a) some text name is repeated: the error "duplicate text label" on the token of x, the first text of the list
+(* THEOREM 2 (the complete case analysis of the name check, for every token stream on which the top-level loop succeeds,
+   in both modes): exactly one of
+   (a) some compared text name is repeated: the error "duplicate text label" on the token of x, the first text of the list
        (hoisted texts, then text statements) whose name was used by an earlier text - the LATER text of the pair;
    (b) text names distinct, some movement name is repeated: the error "duplicate movement label" on the token tk0 of the
        EARLIER movement statement of the first repeated name (list: user statements in source order, then hoisted movements);
-   (c) both distinct: the program is accepted, with exactly these two lists. *)
+   (c) both distinct: the program is accepted, with all texts and all statements. *)
 Theorem parse_program_name_check ts st :
   parse_tops (5 * List.length ts + 4) pst0 ts = Parser.Ok st ->
-  (exists l1 x l2, all_texts st = l1 ++ x :: l2 /\ NoDup (map xname l1) /\ In (xname x) (map xname l1) /\
+  (exists l1 x l2, chk_texts st = l1 ++ x :: l2 /\ NoDup (map xname l1) /\ In (xname x) (map xname l1) /\
                    parse_program ts = err_tok (xtok x) "duplicate text label")
-  \/ (NoDup (map xname (all_texts st)) /\
-      exists e1 n tk e2 tk0, mov_entries (all_tops st) = e1 ++ (n, tk) :: e2 /\ NoDup (map Datatypes.fst e1) /\ In (n, tk0) e1 /\
+  \/ (NoDup (map xname (chk_texts st)) /\
+      exists e1 n tk e2 tk0, mov_entries (chk_tops st) = e1 ++ (n, tk) :: e2 /\ NoDup (map Datatypes.fst e1) /\ In (n, tk0) e1 /\
                    parse_program ts = err_tok tk0 "duplicate movement label")
-  \/ (NoDup (map xname (all_texts st)) /\ NoDup (mov_names (all_tops st)) /\
+  \/ (NoDup (map xname (chk_texts st)) /\ NoDup (mov_names (chk_tops st)) /\
       parse_program ts = Parser.Ok {| tops := all_tops st; texts := all_texts st |}).
 Proof.
   intros H. rewrite parse_program_eq, H.
-  destruct (dup_text [] (all_texts st)) as [x|] eqn:E1.
+  destruct (dup_text [] (chk_texts st)) as [x|] eqn:E1.
   - left. apply dup_text_reports_later in E1. destruct E1 as (l1 & l2 & E & N & I). exists l1, x, l2. tauto.
-  - right. apply dup_text_none_nodup in E1. destruct (dup_mov [] (all_tops st)) as [tk0|] eqn:E2.
+  - right. apply dup_text_none_nodup in E1. destruct (dup_mov [] (chk_tops st)) as [tk0|] eqn:E2.
     + left. split; [exact E1|]. apply dup_mov_reports_earlier in E2. destruct E2 as (e1 & n & tk & e2 & E & N & I).
       exists e1, n, tk, e2, tk0. tauto.
     + right. apply dup_mov_none_nodup in E2. tauto.
@@ -304,21 +314,21 @@ Qed.
 (* "exactly when": the three outcomes characterised by the names alone *)
 Theorem duplicate_text_label_iff ts st :
   parse_tops (5 * List.length ts + 4) pst0 ts = Parser.Ok st ->
-  (~ NoDup (map xname (all_texts st)) <->
-   exists x, In x (all_texts st) /\ parse_program ts = err_tok (xtok x) "duplicate text label").
+  (~ NoDup (map xname (chk_texts st)) <->
+   exists x, In x (chk_texts st) /\ parse_program ts = err_tok (xtok x) "duplicate text label").
 Proof.
   intros H. split.
   - intros ND. destruct (not_nodup_text _ ND) as (x & E). exists x. split.
     + apply dup_text_reports_later in E. destruct E as (l1 & l2 & -> & _). apply in_or_app. right. now left.
     + rewrite parse_program_eq, H, E. reflexivity.
   - intros (x & _ & E) ND. rewrite parse_program_eq, H in E. apply dup_text_none_nodup in ND. rewrite ND in E.
-    destruct (dup_mov [] (all_tops st)); [|discriminate]. apply err_tok_msg in E. symmetry in E. exact (msg_text_ne_mov E).
+    destruct (dup_mov [] (chk_tops st)); [|discriminate]. apply err_tok_msg in E. symmetry in E. exact (msg_text_ne_mov E).
 Qed.
 
 Theorem duplicate_movement_label_iff ts st :
   parse_tops (5 * List.length ts + 4) pst0 ts = Parser.Ok st ->
-  (NoDup (map xname (all_texts st)) /\ ~ NoDup (mov_names (all_tops st)) <->
-   exists n tk0, In (n, tk0) (mov_entries (all_tops st)) /\ parse_program ts = err_tok tk0 "duplicate movement label").
+  (NoDup (map xname (chk_texts st)) /\ ~ NoDup (mov_names (chk_tops st)) <->
+   exists n tk0, In (n, tk0) (mov_entries (chk_tops st)) /\ parse_program ts = err_tok tk0 "duplicate movement label").
 Proof.
   intros H. split.
   - intros [NT ND]. destruct (not_nodup_mov _ ND) as (tk0 & E). pose proof E as E'.
@@ -326,20 +336,29 @@ Proof.
     + rewrite E1. apply in_or_app. now left.
     + apply dup_text_none_nodup in NT. rewrite parse_program_eq, H, NT, E. reflexivity.
   - intros (n & tk0 & _ & E). rewrite parse_program_eq, H in E.
-    destruct (dup_text [] (all_texts st)) as [x|] eqn:E1.
+    destruct (dup_text [] (chk_texts st)) as [x|] eqn:E1.
     + apply err_tok_msg in E. exfalso. exact (msg_text_ne_mov E).
     + split; [now apply dup_text_none_nodup|]. intros ND. apply dup_mov_none_nodup in ND. rewrite ND in E. discriminate.
 Qed.
 
 Theorem accepted_iff ts st :
   parse_tops (5 * List.length ts + 4) pst0 ts = Parser.Ok st ->
-  (NoDup (map xname (all_texts st)) /\ NoDup (mov_names (all_tops st)) <->
+  (NoDup (map xname (chk_texts st)) /\ NoDup (mov_names (chk_tops st)) <->
    parse_program ts = Parser.Ok {| tops := all_tops st; texts := all_texts st |}).
 Proof.
   intros H. split.
   - intros [A B]. apply dup_text_none_nodup in A. apply dup_mov_none_nodup in B. rewrite parse_program_eq, H, A, B. reflexivity.
-  - intros E. apply accepted_names_distinct in E. exact E.
+  - intros E. rewrite parse_program_eq, H in E.
+    destruct (dup_text [] (chk_texts st)) eqn:E1; [discriminate|]. destruct (dup_mov [] (chk_tops st)) eqn:E2; [discriminate|].
+    split; [now apply dup_text_none_nodup|now apply dup_mov_none_nodup].
 Qed.
+
+(* lint mode: the author's own text and movement statements decide; nothing generated is compared *)
+Corollary lint_accepted_iff ts st : ee = false ->
+  parse_tops (5 * List.length ts + 4) pst0 ts = Parser.Ok st ->
+  (NoDup (map xname (ptexts st)) /\ NoDup (mov_names (ptops st)) <->
+   parse_program ts = Parser.Ok {| tops := all_tops st; texts := all_texts st |}).
+Proof. intros EE H. rewrite <- (chk_texts_lint st EE), <- (chk_tops_lint st EE). now apply accepted_iff. Qed.
 
 (* the name check is the last step: an outcome of the top-level loop other than Ok is the outcome of parse_program *)
 Theorem parse_program_propagates ts :
@@ -1020,15 +1039,15 @@ Proof. reflexivity. Qed.
 (* THEOREM 8 ("never compiled into something else"): whatever text is compiled to assembly has no name clash of the four
    kinds: text names pairwise distinct, movement names pairwise distinct, and in every script no label named like a
    generated chunk label of that script or like a text *)
-Theorem compiled_without_name_clash optimize mpath src out :
+Theorem compiled_without_name_clash optimize mpath src out : ee = true ->
   COMPILE optimize mpath src = Compile.OutText out ->
   exists p, PARSE src = Parser.Ok p /\
     NoDup (map xname (texts p)) /\ NoDup (mov_names (tops p)) /\
     Forall (script_clean (map xname (texts p))) (scripts_of (tops p)).
 Proof.
-  rewrite compile_eq. destruct (PARSE src) as [p| | |] eqn:HP; try discriminate.
+  intros EE. rewrite compile_eq. destruct (PARSE src) as [p| | |] eqn:HP; try discriminate.
   destruct (emit_program optimize mpath p) as [x| | | |] eqn:HE; try discriminate. intros _. exists p. split; [reflexivity|].
-  destruct (accepted_names_distinct _ _ _ _ _ _ HP) as [A B]. split; [exact A|]. split; [exact B|].
+  destruct (accepted_names_distinct _ _ _ _ _ _ EE HP) as [A B]. split; [exact A|]. split; [exact B|].
   apply (emit_program_accepts_iff optimize mpath p).
   - pose proof (accepted_bodies_are_src_ok hl hd hs autovars switches ee fc cli_font cli_maxlen src p HP) as Q.
     eapply Forall_impl; [|exact Q]. intros a [H _]. exact H.
@@ -1059,7 +1078,7 @@ Qed.
 (* THEOREM 10: the parser's two name errors reach the user unchanged *)
 Theorem compile_duplicate_text_located optimize mpath src st x :
   parse_tops autovars switches ee (Format.parse_format fc cli_font cli_maxlen ee) (5 * List.length (lex hl hd hs src) + 4) pst0 (lex hl hd hs src) = Parser.Ok st ->
-  dup_text [] (all_texts st) = Some x ->
+  dup_text [] (checked_texts ee st) = Some x ->
   COMPILE optimize mpath src =
   Compile.OutErr {| els := tline (xtok x); ele := teline (xtok x); ecs := tsb (xtok x); eus := tsu (xtok x); ece := teb (xtok x); eue := teu (xtok x);
                     emsg := t "duplicate text label" |}.
@@ -1067,7 +1086,7 @@ Proof. intros H D. rewrite compile_eq, parse_program_eq, H, D. reflexivity. Qed.
 
 Theorem compile_duplicate_movement_located optimize mpath src st tk :
   parse_tops autovars switches ee (Format.parse_format fc cli_font cli_maxlen ee) (5 * List.length (lex hl hd hs src) + 4) pst0 (lex hl hd hs src) = Parser.Ok st ->
-  dup_text [] (all_texts st) = None -> dup_mov [] (all_tops st) = Some tk ->
+  dup_text [] (checked_texts ee st) = None -> dup_mov [] (checked_tops ee st) = Some tk ->
   COMPILE optimize mpath src =
   Compile.OutErr {| els := tline tk; ele := teline tk; ecs := tsb tk; eus := tsu tk; ece := teb tk; eue := teu tk;
                     emsg := t "duplicate movement label" |}.
@@ -1398,17 +1417,17 @@ Section EXAMPLES.
 Open Scope string_scope.
 Definition nf (_ : N) : bool := false.
 Definition fc0 : Format.fontcfg := {| Format.fcDefault := []; Format.fcFonts := [] |}.
-Definition pf0 := Format.parse_format fc0 [] 0%Z false.
+Definition pf0 := Format.parse_format fc0 [] 0%Z true.
 Definition nl : string := String (ascii_of_nat 10) "".
 Definition lex0 (s : string) : toks := lex nf nf nf (t s).
-Definition comp (s : string) : Compile.outcome := Compile.compile nf nf nf [] [] false fc0 [] 0%Z false None (t s).
+Definition comp (s : string) : Compile.outcome := Compile.compile nf nf nf [] [] true fc0 [] 0%Z false None (t s).
 Definition show (x : text) : string := string_of_list_ascii (map ascii_of_N x).
 (* message, line, start column of a reported error *)
 Definition located (o : Compile.outcome) : option (string * Z * Z) :=
   match o with Compile.OutErr e => Some (show (emsg e), els e, ecs e) | _ => None end.
 (* the label lines of the assembly a source is compiled to *)
 Definition out_labels (s : string) : option (list string) :=
-  match parse_program [] [] false pf0 (lex0 s) with
+  match parse_program [] [] true pf0 (lex0 s) with
   | Parser.Ok p => match emit_program_instrs false None p with Emitter.Ok is => Some (map show (lnames is)) | _ => None end
   | _ => None
   end.
@@ -1419,6 +1438,18 @@ Definition compiled (s : string) : bool := match comp s with Compile.OutText _ =
 Definition src_text_gen := "script A { msgbox(""hi"") }" ++ nl ++ "text A_Text_0 { ""x"" }".
 Example ex_text_vs_generated : located (comp src_text_gen) = Some ("duplicate text label", 2%Z, 0%Z).
 Proof. vm_compute. reflexivity. Qed.
+(* D20: the generated names depend on the switch values. With V = A the first case is selected and nothing is hoisted: the
+   text statement A_Text_0 clashes with nothing. With V = B the default case hoists A_Text_0: compile error. The lint
+   parser (no switches: it selects the default case too) compares the author's statements only and accepts - before the
+   repair it answered with the error of the second line, for a program that compiles. *)
+Definition src_lint := "script A { poryswitch(V) { A: foo _: msgbox(""b"") } }" ++ nl ++ "text A_Text_0 { ""x"" }".
+Definition pfl := Format.parse_format fc0 [] 0%Z false.
+Definition accepted (r : Parser.res program) : bool := match r with Parser.Ok _ => true | _ => false end.
+Example ex_lint_ignores_generated_names :
+  accepted (parse_program [] [(t "V", t "A")] true pf0 (lex0 src_lint)) = true /\
+  accepted (parse_program [] [(t "V", t "B")] true pf0 (lex0 src_lint)) = false /\
+  accepted (parse_program [] [] false pfl (lex0 src_lint)) = true.
+Proof. vm_compute. repeat split; reflexivity. Qed.
 (* two text statements of one name: the LATER one (line 3) is reported, on its 'text' keyword (column 0) *)
 Definition src_text_text := "text T { ""x"" }" ++ nl ++ "script A { lock }" ++ nl ++ "text T { ""y"" }".
 Example ex_text_vs_text : located (comp src_text_text) = Some ("duplicate text label", 3%Z, 0%Z).
@@ -1435,18 +1466,18 @@ Proof. vm_compute. reflexivity. Qed.
 
 (* the hypothesis of parse_program_name_check / duplicate_*_iff holds on these inputs, with the lists as described *)
 Example ex_name_check_hyp :
-  exists st, parse_tops [] [] false pf0 (5 * List.length (lex0 src_text_gen) + 4) pst0 (lex0 src_text_gen) = Parser.Ok st /\
+  exists st, parse_tops [] [] true pf0 (5 * List.length (lex0 src_text_gen) + 4) pst0 (lex0 src_text_gen) = Parser.Ok st /\
              map show (map xname (all_texts st)) = ["A_Text_0"; "A_Text_0"] /\
              map (fun x => tline (xtok x)) (all_texts st) = [1%Z; 2%Z].
 Proof. eexists. split; [vm_compute; reflexivity|]. split; vm_compute; reflexivity. Qed.
 Example ex_name_check_hyp_mov :
-  exists st, parse_tops [] [] false pf0 (5 * List.length (lex0 src_mov_gen) + 4) pst0 (lex0 src_mov_gen) = Parser.Ok st /\
+  exists st, parse_tops [] [] true pf0 (5 * List.length (lex0 src_mov_gen) + 4) pst0 (lex0 src_mov_gen) = Parser.Ok st /\
              map show (map xname (all_texts st)) = [] /\
              map (fun e => (show (Datatypes.fst e), tline (Datatypes.snd e))) (mov_entries (all_tops st)) = [("A_Movement_0", 2%Z); ("A_Movement_0", 1%Z)].
 Proof. eexists. split; [vm_compute; reflexivity|]. split; vm_compute; reflexivity. Qed.
 (* duplicate_text_reports_statement / duplicate_movement_reports_statement: all hypotheses hold on these inputs *)
 Example ex_reported_statement :
-  exists st x, parse_tops [] [] false pf0 (5 * List.length (lex0 src_text_gen) + 4) pst0 (lex0 src_text_gen) = Parser.Ok st /\
+  exists st x, parse_tops [] [] true pf0 (5 * List.length (lex0 src_text_gen) + 4) pst0 (lex0 src_text_gen) = Parser.Ok st /\
                (N.of_nat (List.length (htexts (ph st))) <= 10 ^ 40)%N /\ (N.of_nat (List.length (hmovs (ph st))) <= 10 ^ 40)%N /\
                dup_text [] (all_texts st) = Some x /\ tline (xtok x) = 2%Z /\ ttype (xtok x) = TEXT.
 Proof.
@@ -1454,7 +1485,7 @@ Proof.
   split; [vm_compute; intros X; discriminate X|]. split; [vm_compute; reflexivity|]. split; vm_compute; reflexivity.
 Qed.
 Example ex_reported_statement_mov :
-  exists st tk, parse_tops [] [] false pf0 (5 * List.length (lex0 src_mov_gen) + 4) pst0 (lex0 src_mov_gen) = Parser.Ok st /\
+  exists st tk, parse_tops [] [] true pf0 (5 * List.length (lex0 src_mov_gen) + 4) pst0 (lex0 src_mov_gen) = Parser.Ok st /\
                (N.of_nat (List.length (htexts (ph st))) <= 10 ^ 40)%N /\ (N.of_nat (List.length (hmovs (ph st))) <= 10 ^ 40)%N /\
                dup_text [] (all_texts st) = None /\ dup_mov [] (all_tops st) = Some tk /\ tline tk = 2%Z /\ ttype tk = MOVEMENT.
 Proof.
@@ -1465,7 +1496,7 @@ Qed.
 Definition src_ok_names := "text T { ""x"" }" ++ nl ++ "movement M { walk_up }" ++ nl ++
                            "script A { msgbox(""hi"") " ++ nl ++ " applymovement(2, moves(walk_up)) }".
 Example ex_accepted :
-  exists p, parse_program [] [] false pf0 (lex0 src_ok_names) = Parser.Ok p /\
+  exists p, parse_program [] [] true pf0 (lex0 src_ok_names) = Parser.Ok p /\
             map show (map xname (texts p)) = ["A_Text_0"; "T"] /\ map show (mov_names (tops p)) = ["M"; "A_Movement_0"].
 Proof. eexists. split; [vm_compute; reflexivity|]. split; vm_compute; reflexivity. Qed.
 
@@ -1483,7 +1514,7 @@ Proof. vm_compute. reflexivity. Qed.
 
 (* the hypotheses of emit_script_label_check hold for the parsed body of src_lab_chunk; the theorem's second case applies *)
 Definition body_of (s : string) : list stmt :=
-  match parse_program [] [] false pf0 (lex0 s) with Parser.Ok p => match tops p with TScript _ _ b :: _ => b | _ => [] end | _ => [] end.
+  match parse_program [] [] true pf0 (lex0 s) with Parser.Ok p => match tops p with TScript _ _ b :: _ => b | _ => [] end | _ => [] end.
 Example ex_script_hyp :
   exists w, emit_graph (body_of src_lab_chunk) = Emitter.Ok w /\ src_ok (body_of src_lab_chunk) /\
             List.length (finals w) = 4%nat /\ map show (dlabs (body_of src_lab_chunk)) = ["A_1"] /\
@@ -1505,7 +1536,7 @@ Qed.
 
 (* when several labels of a script clash, the one reported is the first clashing label of the first offending chunk in
    RENDERING order (render_chunks_cases) - not the first in the source, and it depends on the chunk-order optimisation *)
-Definition compo (o : bool) (s : string) : Compile.outcome := Compile.compile nf nf nf [] [] false fc0 [] 0%Z o None (t s).
+Definition compo (o : bool) (s : string) : Compile.outcome := Compile.compile nf nf nf [] [] true fc0 [] 0%Z o None (t s).
 Definition src_two_clashes := "script A { if (flag(F)) { A_1: lock }" ++ nl ++ " A: release }".
 Example ex_reported_not_first_in_source :
   located (compo false src_two_clashes) = Some ("duplicate label", 2%Z, 1%Z) /\
